@@ -34,14 +34,13 @@ Proof. exact rel_acq_all. Qed.
 (* ---------------------------------------------------------------- every history (partial) *)
 (* The statement at full strength is  forall sc, wf_histb sc = true -> mon_C05 sc (model_obs sc) = true ; it is
    evaluated on every generated scenario by the check.  Proved below, for EVERY fault-free history of any number of
-   threads over any collections, is the monitor [mon_C05p], which is [mon_C05] without two of its clauses:
-     - that a scoped call releases each of its leaves exactly once (known here only as: the hold table after the call is
-       the one before it, and no release by a non-holder occurs), and
-     - that a call which is cut because it has to wait issued no release by a non-holder before it waited.
-   What is proved: no call that runs to its end ever issues a release for a lock its thread does not hold (or in the
-   wrong mode); dropping or unlocking a guard releases every hold of that guard exactly once, releases nothing else, and
-   leaves none of them held; and when no guard of the history is alive or leaked any more, every lock is exactly as it
-   was at the start (holds of other parties included). *)
+   threads over any collections, is the monitor [mon_C05p], which is [mon_C05] without one clause: that a call which is
+   cut because it has to wait issued no release by a non-holder before it waited (the big-step lemmas for a blocked
+   acquisition describe the hold table it leaves, not the cleanliness of its trace).  What is proved: no call that runs
+   to its end ever issues a release for a lock its thread does not hold (or in the wrong mode); dropping or unlocking a
+   guard releases every hold of that guard exactly once, releases nothing else, and leaves none of them held; a scoped
+   call (returning or unwinding) releases each of its leaves exactly once; and when no guard of the history is alive or
+   leaked any more, every lock is exactly as it was at the start (holds of other parties included). *)
 Theorem C05_every_history_partial :
   forall sc, wf_histb sc = true -> mon_C05p sc (model_obs sc) = true.
 Proof. exact C05_all_histories_partial_dec. Qed.
